@@ -872,7 +872,9 @@ func runSite(c *mon.Case) {
 	// InformativeSites
 	var inf []int
 	if guard(c, "InformativeSites", "", func() { inf = al.InformativeSites() }) {
-		if exact {
+		// mixed case: a residue and its other case are one character of the definition (the count tables of the
+		// statement are case-folded and so is this function): only the case-folded readings are admissible there
+		{
 			in := map[int]int{}
 			for _, s := range inf {
 				in[s]++
@@ -885,6 +887,9 @@ func runSite(c *mon.Case) {
 			for j := 0; j < L; j++ {
 				col := colOf(a.Rows, j)
 				canBe, canNot := informativeStatuses(col, a.wild, a.other)
+				if !exact {
+					canBe, canNot = informativeStatusesFolded(col, a.wild, a.other)
+				}
 				if (in[j] > 0 && !canBe) || (in[j] == 0 && !canNot) {
 					c.Failf("InformativeSites:wrong-site", "InformativeSites()=%v: site %d column %q (%s) informative=%v, definition says %v", inf, j, col, a.Kind, in[j] > 0, canBe)
 					break
@@ -892,8 +897,13 @@ func runSite(c *mon.Case) {
 				if canBe && !canNot {
 					c.Count("informative:sites")
 				}
+				if !exact && canBe != canNot && hasLower([]string{col}) {
+					c.Count("informative:mixed-case-columns-decided")
+				}
 			}
-			c.Count("fn:InformativeSites")
+			if exact {
+				c.Count("fn:InformativeSites")
+			}
 		}
 		canon := func(x []int) string { y := append([]int{}, x...); sort.Ints(y); return fmt.Sprint(y) }
 		stable(c, "InformativeSites", reps, canon(inf), func() string { return canon(al.InformativeSites()) })
@@ -1843,7 +1853,7 @@ func runWitness(c *mon.Case) {
 
 func main() {
 	mon.SetNote("rule", "case = one alignment (nucleotide or protein, 1..16 rows x 1..30 columns) built column by column from the classes the statistics special-case (k-way ties for the most frequent character with the rest gaps / wildcards / rarer characters, all-gap, all-N/X, gaps+N only, gap or wildcard majority, gap count equal to the best residue count, all different, one unique character, informative-site boundaries 2+2 / 2+1, skewed, uniform random; ambiguity codes, 30% of the alignments in mixed case, '*' and '.' now and then) or, for the reference relative counters, a reference row plus rows derived from it by substitutions, compatible ambiguity codes, wildcards, deletions and insertions (leading / trailing / internal runs of reference gaps), the reference being the first row, a chosen row, an external sequence or one of another length. Every function is evaluated against the naive definition on the same columns, then 24 times (majority character and consensus: 40 times; witnesses 200-300) on the same alignment with identical answers required; all site / sequence indices of [-1, L] and far beyond are probed. Non-trivial = at least two rows and (per family) a tie or an excluded kind / an exact (upper case) check / a difference with the reference; distinct = (family, rows, options)."+cliRule)
-	mon.SetNote("assumptions", "oracles in mon/c14/ref.go typed from the statement and docs (stats.md, consensus.md, compute.md, diff.md, interface comments);; ties: any of the tied characters, but the same on each of the repeated calls and on a second container built from the same rows;; fallback (every character excluded): the kind present, with gaps and N mixed either of them; occur = column height or the count of that kind; total = 0 or the column height;; case handling is only stated for the count tables and the majority character (case-folded): Entropy, NbVariableSites, InformativeSites, AvgAllelesPerSite, SiteConservation, Pssm, the unique counters and the reference relative counters are decided on upper case inputs and only checked for determinism / no crash on mixed case;; '*' and '.' counted or not, N/X counted as an allele / a character of a variable site or not, X in nucleotide and N in protein informative sites: every reading accepted;; Entropy of a site without characters: NaN or an error;; AvgAllelesPerSite with no site holding a character (0/0): anything;; PSSM: column frequency over all sequences or over the alphabet characters of the column, DATA background over alphabet characters or all characters, DATA with an alphabet character absent from the alignment: error or anything for that character, LOGO with or without pseudo counts in the denominator and with or without log2, 0*log(0) NaN or 0 (one reading must explain the whole matrix), relative tolerance 1e-9;; reference relative counters: protein ambiguity codes B/Z/J/X against a residue may or may not count; N/X inside an insertion listed or not; positions are 0-based on the ungapped reference (upstream's test.sh); U, ?, X, * and . are not generated in nucleotide rows of the reference family;; count profile: raw or case-folded bookkeeping (sums over case variants are compared);; set-valued answers (UniqueCharacters, InformativeSites, the difference set of CountDifferences) are compared as sets;; floating point answers must be bit-identical between calls"+cliAssumptions)
+	mon.SetNote("assumptions", "oracles in mon/c14/ref.go typed from the statement and docs (stats.md, consensus.md, compute.md, diff.md, interface comments);; ties: any of the tied characters, but the same on each of the repeated calls and on a second container built from the same rows;; fallback (every character excluded): the kind present, with gaps and N mixed either of them; occur = column height or the count of that kind; total = 0 or the column height;; case handling is only stated for the count tables and the majority character (case-folded): Entropy, NbVariableSites, AvgAllelesPerSite, SiteConservation, Pssm, the unique counters and the reference relative counters are decided on upper case inputs and only checked for determinism / no crash on mixed case; InformativeSites is also decided on mixed case, where a residue and its other case are one character (case-folded readings only; a lower case wildcard counted or not);; '*' and '.' counted or not, N/X counted as an allele / a character of a variable site or not, X in nucleotide and N in protein informative sites: every reading accepted;; Entropy of a site without characters: NaN or an error;; AvgAllelesPerSite with no site holding a character (0/0): anything;; PSSM: column frequency over all sequences or over the alphabet characters of the column, DATA background over alphabet characters or all characters, DATA with an alphabet character absent from the alignment: error or anything for that character, LOGO with or without pseudo counts in the denominator and with or without log2, 0*log(0) NaN or 0 (one reading must explain the whole matrix), relative tolerance 1e-9;; reference relative counters: protein ambiguity codes B/Z/J/X against a residue may or may not count; N/X inside an insertion listed or not; positions are 0-based on the ungapped reference (upstream's test.sh); U, ?, X, * and . are not generated in nucleotide rows of the reference family;; count profile: raw or case-folded bookkeeping (sums over case variants are compared);; set-valued answers (UniqueCharacters, InformativeSites, the difference set of CountDifferences) are compared as sets;; floating point answers must be bit-identical between calls"+cliAssumptions)
 	mon.SetNote("exhaustive_subspaces", "iupac: all 16 x 16 pairs (15 IUPAC nucleotide codes and the gap) of one residue against one reference residue, upper and lower case: NumMutationsComparedToReferenceSequence, ListMutationsComparedToReferenceSequence, EqualOrCompatible, Nt2IndexIUPAC against the IUPAC set table")
 	for _, f := range []string{"CharStats", "UniqueCharacters", "CharStatsSeq", "CharStatsSite", "CountProfile", "MaxCharStats", "Consensus", "Entropy", "NbVariableSites", "InformativeSites", "AvgAllelesPerSite", "SiteConservation", "Pssm", "NumGapsUniquePerSequence", "NumMutationsUniquePerSequence", "NumMutationsComparedToReferenceSequence", "ListMutationsComparedToReferenceSequence", "CountDifferences"} {
 		mon.Floor("fn:"+f, 1000)
